@@ -29,7 +29,15 @@ def _shape(draw, struct, R, S):
     for _ in range(30):
         tw = draw(_i(max(2, need_w), 6))
         th = draw(_i(max(2, need_h), 6))
-        if ok_ratio(tw, th, R):
+        if draw(_i(0, 3)) == 0 and Fr(R).denominator <= 2:
+            # a trunk exactly on the aspect-ratio limit (6 x 3 for R = 2, 6 x 4 for R = 1.5, 6 x 2 for R = 3)
+            a = draw(st.sampled_from([2, 4, 6]))
+            b = Fr(a) / Fr(R)
+            if b.denominator == 1 and b >= max(2, min(need_w, need_h)):
+                tw, th = (a, int(b)) if draw(st.booleans()) else (int(b), a)
+                if tw < need_w or th < need_h:
+                    tw, th = th, tw
+        if ok_ratio(tw, th, R) and tw >= need_w and th >= need_h:
             break
     else:
         tw = th = max(2, need_w, need_h)
@@ -112,7 +120,7 @@ def floorplan(draw, max_modules=4, units=None):
         else:
             d1 = dict(off=list(d0["off"]), trunk=list(d0["trunk"]), br={k: [list(b) for b in v] for k, v in d0["br"].items()})
         mods.append(dict(name="%s%d" % (kind[0].upper(), i), kind=kind, slot=slot, floats=draw(st.booleans()), struct=struct,
-                         draws=[d0, d1], slack=draw(st.sampled_from([1, 1, 0.9, 0.5]))))
+                         draws=[d0, d1], slack=draw(st.sampled_from([1, 0.9, 0.5, 0.5]))))
     names = [m["name"] for m in mods]
     nets = []
     for _ in range(draw(_i(0, 3))):
